@@ -141,6 +141,9 @@ func (p *remoteProp) Gen(r *Rand, tier string, idx int) any {
 						off = -int64(r.Intn(int(size) + 2))
 					}
 					op.Steps = append(op.Steps, SeekStep{Seek: true, Off: off, Whence: wh})
+					if r.Chance(0.4) && wh != 1 {
+						op.Steps = append(op.Steps, SeekStep{Seek: true, Off: off, Whence: wh}) // the same seek again (a retry)
+					}
 				}
 			}
 		case x < 11:
@@ -173,6 +176,11 @@ func (p *remoteProp) Gen(r *Rand, tier string, idx int) any {
 			Method: pick(r, []string{"", "GET", "HEAD", "PUT", "DELETE"}),
 			Occur:  r.Range(1, 4),
 			Kind:   pick(r, []string{"digest-header", "digest-header", "content-length", "content-type", "truncate-body", "flip-body"}),
+		}
+		if r.Chance(0.25) {
+			// an exchange that simply fails (the operation may be retried by the history)
+			rp.Fault.Class, rp.Fault.Method = "blob", "GET"
+			rp.Fault.Kind = pick(r, []string{"status-500", "transport"})
 		}
 	}
 	return rp
@@ -360,7 +368,12 @@ func (p *remoteProp) step(ctx context.Context, rc *RunCtx, rp *RemoteParams, g *
 		var rc2 io.ReadCloser
 		rc2, err = repo.Fetch(ctx, n.Desc)
 		if err == nil {
-			seekViolation = p.readSeek(rc2, n, op, present)
+			seekViolation = p.readSeek(rc2, n, op, present, func() string {
+				if f, _ := after(); f && rp.Fault != nil {
+					return rp.Fault.Kind
+				}
+				return ""
+			})
 			rc2.Close()
 		}
 	case "exists":
@@ -397,6 +410,14 @@ func (p *remoteProp) step(ctx context.Context, rc *RunCtx, rp *RemoteParams, g *
 		p.uncertain[descKey(n.Desc)] = true
 	}
 
+	if seekViolation != nil {
+		seekViolation.Detail += "\n" + hist()
+		return seekViolation
+	}
+	if fired && rp.Fault != nil && (rp.Fault.Kind == "status-500" || rp.Fault.Kind == "transport") {
+		// a plainly failed exchange: the operation may fail; nothing else is judged for this step
+		return nil
+	}
 	if fired {
 		// a tampered response reached this operation: if the tampered field is one
 		// the request pins, the call must fail
@@ -632,7 +653,9 @@ func (p *remoteProp) step(ctx context.Context, rc *RunCtx, rp *RemoteParams, g *
 }
 
 // readSeek applies a Read/Seek sequence and compares with the stored bytes.
-func (p *remoteProp) readSeek(rc io.ReadCloser, n *Node, op RemoteOp, present bool) *Verdict {
+func (p *remoteProp) readSeek(rc io.ReadCloser, n *Node, op RemoteOp, present bool, faultKind func() string) *Verdict {
+	failing := func() bool { k := faultKind(); return k == "status-500" || k == "transport" }
+	tampering := func() bool { k := faultKind(); return k != "" && k != "status-500" && k != "transport" }
 	data := n.Data
 	var pos int64
 	sk, canSeek := rc.(io.Seeker)
@@ -658,6 +681,9 @@ func (p *remoteProp) readSeek(rc io.ReadCloser, n *Node, op RemoteOp, present bo
 				continue
 			}
 			if err != nil {
+				if failing() {
+					continue // the Range exchange failed: the reader stays where it was
+				}
 				return violation("seek-wrong", "", "%s step %d: Seek(%d,%d) failed: %v", op, si, st.Off, st.Whence, err)
 			}
 			if got != want {
@@ -677,6 +703,9 @@ func (p *remoteProp) readSeek(rc io.ReadCloser, n *Node, op RemoteOp, present bo
 			exp = data[pos:end]
 		}
 		if !bytes.Equal(buf[:k], exp) {
+			if tampering() {
+				return nil // a tampered body: a raw reader cannot know
+			}
 			return violation("wrong-bytes", "", "%s step %d: Read(%d) at offset %d returned %d bytes that differ from the stored content (expected %d bytes)", op, si, st.Read, pos, k, len(exp))
 		}
 		if err != nil && err != io.EOF && err != io.ErrUnexpectedEOF {
